@@ -13,7 +13,7 @@
 (***************************************************************************)
 EXTENDS Naturals, Sequences, TLC
 
-CONSTANTS Configs,      \* set of [total, batch, big]
+CONSTANTS Configs,      \* set of [total, batch, big, occupied]; occupied: the output path already holds a complete index
           HeaderFirst
 
 VARIABLES cfg, file,    \* file = [exists, bucket, header, nv]
@@ -23,8 +23,12 @@ cvars == <<cfg, file, pc, alive>>
 
 NoFile == [exists |-> FALSE, bucket |-> FALSE, header |-> FALSE, nv |-> 0]
 Init == cfg \in Configs /\ file = NoFile /\ pc = "start" /\ alive = TRUE
-CreateExcl == /\ alive /\ pc = "start"
+CreateExcl == /\ alive /\ pc = "start" /\ ~cfg.occupied
               /\ file' = [file EXCEPT !.exists = TRUE] /\ pc' = "writing" /\ UNCHANGED <<cfg, alive>>
+\* an occupied path: exclusive creation is refused before anything is written (file describes the new index: nothing of it exists);
+\* re-creating in place would otherwise leave, after a crash, a file that opens and mixes two indexes
+Refuse == /\ alive /\ pc = "start" /\ cfg.occupied
+          /\ pc' = "done" /\ UNCHANGED <<cfg, file, alive>>
 CommitBatch == /\ alive /\ pc = "writing" /\ ~cfg.big
                /\ \E k \in 0..(cfg.total - file.nv) :
                     file' = [file EXCEPT !.bucket = TRUE, !.nv = @ + k, !.header = (@ \/ HeaderFirst)]
@@ -34,12 +38,14 @@ CommitFinal == /\ alive /\ pc = "writing"
                /\ file' = [file EXCEPT !.bucket = TRUE, !.nv = cfg.total, !.header = TRUE]
                /\ pc' = "done" /\ UNCHANGED <<cfg, alive>>
 Crash == alive /\ alive' = FALSE /\ UNCHANGED <<cfg, file, pc>>
-Next == CreateExcl \/ CommitBatch \/ TempCommit \/ CommitFinal \/ Crash
+Next == CreateExcl \/ Refuse \/ CommitBatch \/ TempCommit \/ CommitFinal \/ Crash
 Spec == Init /\ [][Next]_cvars
 
 OpensOK(f) == f.exists /\ f.bucket /\ f.header
 \* C06: whatever survives a crash is absent, or rejected by OpenIndex, or complete
 CrashSafe == OpensOK(file) => file.nv = cfg.total
+\* nothing is ever written onto an occupied path
+OccupiedUntouched == cfg.occupied => file = NoFile
 \* what opening the surviving file must do
 ExpectedOpen(f) == IF ~f.exists THEN "absent" ELSE IF OpensOK(f) THEN "opened" ELSE "rejected"
 =============================================================================
